@@ -5,6 +5,8 @@ import (
 	"errors"
 	"sync"
 	"time"
+
+	"github.com/samsarahq/thunder/verifhook"
 )
 
 var (
@@ -79,6 +81,7 @@ func (c *cache) get(key interface{}) *computation {
 	c.mu.Lock()
 	defer c.mu.Unlock()
 
+	verifhook.At("reactive.cache.get", c, key, c.computations[key])
 	return c.computations[key]
 }
 
@@ -87,6 +90,7 @@ func (c *cache) set(key interface{}, computation *computation) {
 	c.mu.Lock()
 	defer c.mu.Unlock()
 
+	verifhook.At("reactive.cache.set", c, key, computation, c.computations[key] == nil)
 	if c.computations[key] == nil {
 		c.computations[key] = computation
 	}
@@ -96,6 +100,8 @@ func (c *cache) cleanInvalidated() {
 	c.mu.Lock()
 	defer c.mu.Unlock()
 
+	verifhook.At("reactive.cache.clean", c, len(c.computations))
+	defer verifhook.At("reactive.cache.cleaned", c)
 	for key, computation := range c.computations {
 		if computation.node.Invalidated() {
 			delete(c.computations, key)
@@ -122,6 +128,7 @@ func (c *cache) purgeCache() {
 	c.mu.Lock()
 	defer c.mu.Unlock()
 
+	verifhook.At("reactive.cache.purge", c)
 	c.computations = make(map[interface{}]*computation)
 }
 
@@ -139,11 +146,13 @@ func NewResource() *Resource {
 
 // Invalidate permanently invalidates r
 func (r *Resource) Invalidate() {
+	verifhook.At("reactive.Resource.Invalidate", &r.node)
 	go r.invalidate()
 }
 
 // Store invalidates all computations currently depending on r
 func (r *Resource) Strobe() {
+	verifhook.At("reactive.Resource.Strobe", &r.node)
 	go r.strobe()
 }
 
@@ -246,15 +255,18 @@ func run(ctx context.Context, f ComputeFunc) (*computation, error) {
 	}
 
 	childCtx := context.WithValue(ctx, computationKey{}, c)
+	verifhook.At("reactive.compute.begin", &c.node)
 
 	// Compute f and write the results to the c
 	value, err := f(childCtx)
 	if err != nil {
+		verifhook.At("reactive.compute.fail", &c.node)
 		go c.node.release()
 		return nil, err
 	}
 
 	c.value = value
+	verifhook.At("reactive.compute.end", &c.node)
 
 	return c, nil
 }
@@ -269,6 +281,7 @@ func Cache(ctx context.Context, key interface{}, f ComputeFunc) (interface{}, er
 	computation := ctx.Value(computationKey{}).(*computation)
 
 	if err := cache.locker.Lock(ctx, key); err != nil {
+		verifhook.At("reactive.cache.lockerr", cache, key)
 		return nil, err
 	}
 	defer cache.locker.Unlock(key)
@@ -337,6 +350,7 @@ func NewRerunner(ctx context.Context, f ComputeFunc, minRerunInterval time.Durat
 
 		flushCh: make(chan struct{}, 0),
 	}
+	verifhook.At("reactive.rerunner.new", r, r.cache)
 	go r.run()
 	return r
 }
@@ -367,6 +381,7 @@ func (r *Rerunner) run() {
 	if r.ctx.Err() != nil {
 		return
 	}
+	verifhook.At("reactive.run.proceed", r)
 
 	r.flushMu.Lock()
 	if r.flushed {
@@ -377,6 +392,8 @@ func (r *Rerunner) run() {
 
 	r.mu.Lock()
 	defer r.mu.Unlock()
+	verifhook.At("reactive.run.locked", r, r.stop)
+	defer verifhook.At("reactive.run.unlock", r)
 
 	// Bail out if the computation has been stopped.
 	if r.stop {
@@ -403,10 +420,12 @@ func (r *Rerunner) run() {
 		if err != RetrySentinelError {
 			// If we encountered an error that is not the retry sentinel,
 			// we should stop the rerunner.
+			verifhook.At("reactive.run.failed", r)
 			return
 		}
 		// Reset the cache for sentinel errors so we get a clean slate.
 		r.cache.purgeCache()
+		verifhook.At("reactive.run.retry", r)
 
 		r.retryDelay = r.retryDelay * 2
 
@@ -418,6 +437,7 @@ func (r *Rerunner) run() {
 	} else {
 		// If we succeeded in the computation, we can release the old computation
 		// and reset the retry delay.
+		verifhook.At("reactive.run.publish", r, r.computation != nil, &currentComputation.node)
 		if r.computation != nil {
 			go r.computation.node.release()
 			r.computation = nil
@@ -440,10 +460,12 @@ func (r *Rerunner) run() {
 
 func (r *Rerunner) Stop() {
 	// Call cancelCtx before acquiring the lock as the lock might be held for a long time during a running computation.
+	verifhook.At("reactive.stop.cancel", r)
 	r.cancelCtx()
 
 	r.mu.Lock()
 	r.stop = true
+	verifhook.At("reactive.stop.mark", r, r.computation != nil)
 	if r.computation != nil {
 		go r.computation.node.release()
 		r.computation = nil
